@@ -13,6 +13,7 @@ import (
 	"errors"
 	"fmt"
 	"os"
+	"runtime"
 	"sort"
 	"strconv"
 	"strings"
@@ -56,8 +57,9 @@ type Case struct {
 	Workers   int        `json:"workers"`
 	FailFirst bool       `json:"fail_first"`
 	Plan      sched.Plan `json:"plan"`
-	Dep       bool       `json:"dep,omitempty"`  // the first root action of cascade 0 returns only after the first root action of cascade 1 has started (needs >= 2 cascades, >= 2 workers; Go route)
-	ECAL      bool       `json:"ecal,omitempty"` // route: the first cascade as ECAL sinks, waited for with addEventAndWait (fail-on-first-error is always on there)
+	Waiter    bool       `json:"waiter,omitempty"` // another goroutine of the host keeps calling ThreadPool().WaitAll() while the cascades run (Go route)
+	Dep       bool       `json:"dep,omitempty"`    // the first root action of cascade 0 returns only after the first root action of cascade 1 has started (needs >= 2 cascades, >= 2 workers; Go route)
+	ECAL      bool       `json:"ecal,omitempty"`   // route: the first cascade as ECAL sinks, waited for with addEventAndWait (fail-on-first-error is always on there)
 }
 
 func TestMain(m *testing.M) { hx.Main(m, "C02", rule) }
@@ -198,6 +200,33 @@ func runCase(c Case) (fail *hx.Failure) {
 		}
 	}()
 
+	if c.Waiter {
+		stopWaiter := make(chan struct{})
+		var wwg sync.WaitGroup
+		wwg.Add(1)
+		go func() {
+			defer wwg.Done()
+			for {
+				select {
+				case <-stopWaiter:
+					return
+				default:
+				}
+				proc.ThreadPool().WaitAll()
+				runtime.Gosched()
+			}
+		}()
+		defer func() {
+			close(stopWaiter)
+			fin := make(chan struct{})
+			go func() { wwg.Wait(); close(fin) }()
+			select {
+			case <-fin:
+			case <-time.After(10 * time.Second):
+				// (still inside WaitAll: a pool which is locked up was reported by waitReturn)
+			}
+		}()
+	}
 	for _, cr := range runs {
 		cr := cr
 		cr.rm = proc.NewRootMonitor(nil, nil)
@@ -266,9 +295,18 @@ func waitReturn(c Case, cr *cascadeRun, proc engine.Processor, s *sched.Sched, c
 		queue, idle, total int
 		clock              int64
 	}
+	lockedUp := false
 	take := func() snap {
-		st := proc.ThreadPool().State()
-		return snap{st["TaskQueueSize"].(int), len(st["IdleWorkerThreads"].([]uint64)), len(st["TotalWorkerThreads"].([]uint64)), atomic.LoadInt64(clock)}
+		// State() takes the pool's locks: if it does not answer either, the pool is locked up for good
+		ch := make(chan map[string]interface{}, 1)
+		go func() { ch <- proc.ThreadPool().State() }()
+		select {
+		case st := <-ch:
+			return snap{st["TaskQueueSize"].(int), len(st["IdleWorkerThreads"].([]uint64)), len(st["TotalWorkerThreads"].([]uint64)), atomic.LoadInt64(clock)}
+		case <-time.After(stuckBound):
+			lockedUp = true
+			return snap{-1, -1, -1, atomic.LoadInt64(clock)}
+		}
 	}
 	for time.Since(start) < stuckBound+5*time.Second {
 		select {
@@ -281,6 +319,18 @@ func waitReturn(c Case, cr *cascadeRun, proc engine.Processor, s *sched.Sched, c
 			continue
 		}
 		a := take()
+		if lockedUp && s.ActiveHolds() == 0 {
+			select {
+			case <-cr.done:
+				return nil
+			default:
+			}
+			if stuckBound > 3*time.Second {
+				stuckBound = 3 * time.Second
+			}
+			return hx.Failf("pool-locked-up", "cascade %d: AddEventAndWait still blocked after %v and ThreadPool().State() does not answer within the bound either (no hold active): the pool's locks are held for good; hook counters %v",
+				cr.idx, time.Since(start).Round(time.Millisecond), s.Counts())
+		}
 		time.Sleep(500 * time.Millisecond)
 		b := take()
 		time.Sleep(500 * time.Millisecond)
@@ -597,6 +647,9 @@ func record(c Case, s *sched.Sched) {
 	if c.Dep && !c.ECAL && len(c.Cascades) >= 2 && c.Workers >= 2 {
 		classes = append(classes, "dep.root-action-waits-for-other-cascade")
 	}
+	if c.Waiter && !c.ECAL {
+		classes = append(classes, "host.waitall-caller-alongside")
+	}
 	hx.E.Case(nt, key, classes...)
 	if nt {
 		hx.E.Sample(key, c)
@@ -685,6 +738,7 @@ func genCase(rt *rapid.T) Case {
 	if pick(4, "dep") == 0 {
 		c.Dep = true
 	}
+	c.Waiter = pick(3, "waiter") == 0
 	if c.Dep && (len(c.Cascades) < 2 || c.Workers < 2) {
 		// make the dependency meaningful instead of dropping it
 		if c.Workers < 2 {
